@@ -5,6 +5,8 @@ loops at their headers (havocking what the loop writes), inlines small loop-free
 functions, and produces for every path: the branch decisions, the calls made (events)
 with symbolic arguments, and the returned expression.  Expressions are hashable tuples.
 """
+import re
+
 from . import cfg as cfgmod
 from .facts import callee_name
 
@@ -277,6 +279,15 @@ class Ops:
                 return TRUE if CMP[base](x, y) else FALSE
             if r is not None:
                 return I(wrap(r, ty), ty)
+        # identities
+        if base in ("BitXor", "BitOr", "Add") and a[0] == "int" and a[1] == 0:
+            return b
+        if base in ("BitXor", "BitOr", "Add", "Sub", "Shl", "Shr") and b[0] == "int" and b[1] == 0:
+            return a
+        if base == "Mul" and b[0] == "int" and b[1] == 1:
+            return a
+        if base == "Mul" and a[0] == "int" and a[1] == 1:
+            return b
         if base in ("Eq", "Ne") and a[0] == "enum" and b[0] == "enum" and a[1] == b[1]:
             return TRUE if (a == b) == (base == "Eq") else FALSE
         if base in ("Eq", "Ne") and a == b and a[0] in ("param", "enum", "obj", "elem"):
@@ -1439,6 +1450,9 @@ class SymExec:
                 return ("agg", "core::option::Option", "None", 0, ())
             if name.startswith("<core::result::Result<") and r[0] == "residual":
                 return ("agg", "core::result::Result", "Err", 1, (("0", ("errconv", self.ops.field(self.ops.downcast(r[2], "Err"), "0"))),))
+        mconv = re.match(r"<(u8|u16|u32|u64|u128|usize|i8|i16|i32|i64|i128|isize) as core::convert::From<(u8|u16|u32|u64|usize|i8|i16|i32|i64|isize|bool)>>::from$", name)
+        if mconv and len(args) == 1:
+            return o.cast(mconv.group(1), args[0])
         if name == "core::num::<impl u64>::wrapping_sub":
             return o.bin("Sub", args[0], args[1])
         if name == "core::num::<impl u64>::wrapping_mul":
